@@ -38,10 +38,12 @@ def setup(E, noise, sde_type, B=1, d=1, m=1, eta_limit=2, n_params=1, unused_par
     S.f = jets.DynJetFunction('F', d, (d,), params=S.params)
     S.g = jets.DynJetFunction('G', d, gshape(noise, d, m), params=S.params, elementwise=(noise == 'diagonal'),
                               ydep=(noise != 'additive'))
+    S.g.per_row = True      # additive noise: independent of the state, but not necessarily the same for every batch row
     methods = {'f': S.f, 'g': S.g}
     if extra_methods:
         methods.update(extra_methods(S))
     S.user = H.make_user_sde(noise, sde_type, methods)
+    S.user.fields['$parameters'] = list(S.params)
     S.sde = H.forward_sde(E, S.cx, S.user)
     return S
 
@@ -133,9 +135,35 @@ def install_function_apply(E):
                     out = eng.call(fwd, [ctx] + list(args), {}, cx, lineno)
                 finally:
                     gm.__pyvc_exit__(cx)
+                ctx.apply_args = list(args)
                 eng.last_fn_ctx = ctx
                 return out
             return I.ExternFunc(obj.name + '.apply', apply)
+        if prev is not None:
+            return prev(eng, obj, name, cx, lineno)
+        return NotImplemented
+    E.hooks['getattr'] = hook
+
+
+def install_module_parameters(E):
+    """nn.Module.parameters(): the parameters registered on the object and, recursively, on its sub-objects (the harness registers the
+    user's parameters under the field '$parameters')."""
+    prev = E.hooks.get('getattr')
+
+    def collect(obj, seen):
+        out = []
+        if id(obj) in seen or not isinstance(obj, I.ObjVal):
+            return out
+        seen.add(id(obj))
+        out += list(obj.fields.get('$parameters', []))
+        for v in obj.fields.values():
+            if isinstance(v, I.ObjVal):
+                out += collect(v, seen)
+        return out
+
+    def hook(eng, obj, name, cx, lineno):
+        if name == 'parameters' and isinstance(obj, I.ObjVal) and 'parameters' not in obj.fields:
+            return I.ExternFunc('Module.parameters', lambda: iter(collect(obj, set())))
         if prev is not None:
             return prev(eng, obj, name, cx, lineno)
         return NotImplemented
